@@ -111,6 +111,17 @@ def cases(rng, tier):
         for backend in ("cbc", "glpk"):
             yield {"continuum": spec, "dissim": DISSIMS[k % len(DISSIMS)], "backend": backend}
         k += 1
+    # odd cycles: three annotators disputing one place with three different labels (pairs are cheap, the triple and the singletons are
+    # dear) - where a relaxed (non 0/1) program has fractional optima
+    tri = {"ann0": [[0.0, 10.0, "x"]], "ann1": [[2.0, 12.0, "y"]], "ann2": [[4.0, 14.0, "z"]]}
+    tri2 = {"ann0": [[0.0, 10.0, "x"], [30.0, 40.0, "x"]], "ann1": [[2.0, 12.0, "y"], [31.0, 40.0, "x"]], "ann2": [[4.0, 14.0, "z"], [30.0, 41.0, "x"]]}
+    for spec in (tri, tri2):
+        for desc in (["combined", 1.0, 2.0, 1.0, None], ["combined", 3.0, 1.0, 1.0, None], ["combined", 1.0, 1.0, 1.0, None]):
+            for backend in ("cbc", "glpk"):
+                yield {"continuum": spec, "dissim": desc, "backend": backend}
+    for spec in common.grid_continua(rng, 3, 2, 6, ["x", "y", "z"], allow_empty=False, count=6 if tier == "quick" else 40):
+        yield {"continuum": spec, "dissim": ["combined", 1.0, 2.0, 1.0, None], "backend": "cbc" if k % 2 else "glpk"}
+        k += 1
     for n, mx, cnt in ((2, 3, 14), (3, 2, 10), (4, 1, 3)):
         for spec in common.grid_continua(rng, n, mx, 5, labels, count=cnt if tier == "quick" else cnt * 6):
             yield {"continuum": spec, "dissim": DISSIMS[k % len(DISSIMS)], "backend": "cbc" if k % 2 else "glpk"}
